@@ -103,6 +103,7 @@ NAME: /(?!__H)[A-Za-z_][A-Za-z_0-9]*/
 
 _parser = lark.Lark(GRAMMAR, parser="earley", lexer="dynamic", maybe_placeholders=False)
 _expr_parser = lark.Lark(GRAMMAR, parser="earley", lexer="dynamic", maybe_placeholders=False, start="expr")
+_DDL = re.compile(r"^\s*CREATE\s+TABLE\s+(IF\s+NOT\s+EXISTS\s+)?(\w+)", re.I)
 _NOEFFECT = re.compile(r"^\s*(PRAGMA|CREATE\s+INDEX|DROP\s+INDEX|ANALYZE|CREATE\s+UNIQUE\s+INDEX|SELECT\s+\w+\s+FROM\s+sqlite_master)\b", re.I)
 
 FEATURE_COLS = ["id", "seqid", "source", "featuretype", "start", "end", "score", "strand", "frame",
@@ -157,6 +158,11 @@ def parse(query):
     norm = " ".join(text.split())
     if _NOEFFECT.match(norm):
         t = lark.Tree("start", [lark.Tree("noeffect", [])])
+        return Stmt(norm, holes, t)
+    m = _DDL.match(norm)
+    if m and ";" not in norm.rstrip("; "):
+        # one CREATE TABLE statement run on its own: kind "ddl" (creates the table; raises if it exists and no IF NOT EXISTS)
+        t = lark.Tree("start", [lark.Tree("ddl", [lark.Token("NAME", m.group(2)), lark.Token("IFNOTEXISTS", "1" if m.group(1) else "")])])
         return Stmt(norm, holes, t)
     key = norm
     if key not in _cache:
